@@ -252,12 +252,13 @@ def check(pid, tier, seed, update_expected=False):
                         obligations.append(rec)
                     if not ok:
                         only_unwind = hr['failed_checks'] and all('unwinding' in f['desc'] for f in hr['failed_checks'])
-                        if only_unwind:
+                        if only_unwind and h not in K.get('nonterm', []):
                             return undecided(pid, tier, seed, t0, 'unwinding bound too small in %s' % h)
+                        # (for a termination harness on a concrete input, running into the unwinding bound IS the violation)
                         fl = {'kind': 'kani', 'id': oid, 'harness': h, 'group': g, 'detail': hr['failed_checks'][:6]}
                         # one replayed input per run is enough to show the violation; further failing harnesses are listed
                         if not any(x.get('playback') and x['playback'].get('native_failed') for x in failing if x['kind'] == 'kani'):
-                            fl['playback'] = kanirun.playback(dst, h, no_default=g.get('no_default', False))
+                            fl['playback'] = kanirun.playback(dst, h, no_default=g.get('no_default', False), timeout=(90 if h in K.get('nonterm', []) else 900), synth=(h in K.get('nonterm', [])))
                         failing.append(fl)
                 kres_all[id(g)] = r['cmd']
             finally:
